@@ -59,6 +59,11 @@ def gen_cases(tier, seed):
                    discard_exploration=bool(j % 3 == 0))
         if cfg['n_batch'] == 16:
             cfg['n_live'] = 60
+        if tier == 'quick':
+            cfg['n_eff'] = min(cfg['n_eff'], 250)
+            cfg['n_shell'] = 1 if j % 4 == 0 else cfg['n_shell']
+            if j % 4 == 0:
+                cfg.update(f_live=0.2, n_live=min(cfg['n_live'], 100))
         if j % 4 == 3:
             # one update per bound (tests/test_sampler.py::test_sampler_empty_shells): empty shells, often the first
             # one, are removed at the end of exploration; the checkpoint must restore what is left
